@@ -103,6 +103,19 @@ GroupVerdicts(k) ==
               ELSE LET n == k - f + 1
                        cnt(pos) == Cardinality({j \in f..k : Trace[j].status = 200 /\ Len(FiredVec(Trace[j])) >= pos /\ FiredVec(Trace[j])[pos]})
                    IN IF \A pos \in 1..3 : C08FreqOK(cnt(pos), n, pos) THEN {} ELSE {Fail("C08", "frequency", "")})
+          ELSE IF rel = "c15freq" THEN
+             (* over many seeds the probability orderings put the less (more) important criterion first more often: *)
+             (* the group's requests differ in their seed only; criteria c1 < c2 < c3 in importance (1 : 4 : 16)      *)
+             (IF ~IsGroupLast(k) THEN {}
+              ELSE LET first(j) == LET evs == BiasEvents(Trace[j]) IN
+                                   IF Trace[j].status = 200 /\ Len(evs) >= 1 /\ Has(evs[1].report.props, "omittedCriteria")
+                                      /\ Len(evs[1].report.props.omittedCriteria) = 1
+                                   THEN evs[1].report.props.omittedCriteria[1].id ELSE "?"
+                       cnt(c) == Cardinality({j \in f..k : first(j) = c})
+                       weakFirst == o.case.group.ordering = "weakestByProbability"
+                   IN IF cnt("?") = 0 /\ (IF weakFirst THEN cnt("c1") > cnt("c2") /\ cnt("c2") > cnt("c3")
+                                                        ELSE cnt("c3") > cnt("c2") /\ cnt("c2") > cnt("c1"))
+                      THEN {} ELSE {Fail("C15", "probability-ordering-frequencies", "")})
           ELSE IF rel = "samereq" THEN
              (IF \A j \in f..(k - 1) : Trace[j].case.req = o.case.req => (Trace[j].status = o.status /\ Trace[j].resp = o.resp)
               THEN {} ELSE {Fail(o.case.group.p, "history-dependent", "")})
